@@ -107,7 +107,10 @@ class Run:
         os.makedirs(REPLAY_DIR, exist_ok=True)
         for o, kf in known_hits:
             print(f"KNOWN-FINDING: property={self.pid} {kf.get('what', o.what)} [{o.rule} at {o.where}]")
-        for k, o in enumerate(viol):
+        MAXV = 12
+        if len(viol) > MAXV:
+            print(f"({len(viol)} violations; the first {MAXV} are listed, all are counted in the evidence file)")
+        for k, o in enumerate(viol[:MAXV]):
             rp = os.path.join(REPLAY_DIR, f"{self.pid}-{k}.json")
             with open(rp, "w") as fh:
                 json.dump({"property": self.pid, "obligation": o.as_dict(), "key": list(o.key()),
